@@ -464,6 +464,10 @@ func mfRunConfigCase(c mfCase) mfLine {
 		m["file"] = "${property:" + dir + "/nosuch.properties#file}"
 	case "prop_nosuchkey":
 		m["file"] = "${property:" + prop + "#nosuch}"
+	case "prop_emptykey":
+		m["file"] = "${property:" + prop + "#}"
+	case "unknown_tag":
+		m["file"] = "${nosuch:thing}"
 	case "env_unset":
 		m["file"] = "${env:VERIF_C13_UNSET}"
 	case "env_badint":
@@ -484,6 +488,9 @@ func mfRunConfigCase(c mfCase) mfLine {
 		if derr != nil {
 			evs = append(evs, mfEvent{"End", "rejected"})
 		} else {
+			if c.Cls == "unknown_tag" && conf.File != "${nosuch:thing}" {
+				machinery("unknown placeholder type decoded to %+v", conf)
+			}
 			if c.Cls == "d_none" && (conf.File != "/ammo.uri" || conf.Limit != 7) {
 				machinery("well-formed config decoded to %+v", conf)
 			}
